@@ -6,7 +6,7 @@ each routine, from the accepted-swap block,
   * the literal cell assignments `R[x,y] = R[z,w] | <int literal> | <saved name>` in program order,
   * the edge-list rewrites `i[e] = v` / `j[e] = v`,
   * the optional orientation flip (`i[e2] = d; j[e2] = c; c = i[e2]; d = j[e2]`),
-  * the guard cells (`not (R[a,d] or R[c,b] [or B[a,d] or B[c,b]])`), lattice products, sign comparisons,
+  * the guard cells (`not (R[a,d] or R[c,b] [or B[a,d] or B[c,b] or B[d,a] or B[b,c]])`), lattice products, sign comparisons,
   * the bindings `a = i[e1] …` and the four-distinct-endpoints test,
 
 and writes them as data into lean/BctVerif/Gen/Kernels.lean together with one obligation per routine
@@ -408,7 +408,7 @@ def lean_file(ks, src_path):
         if k.name.startswith('latmio'):
             out.append('theorem kernel_%s_lattice : kernel_%s.latLhs = stdLatLhs ∧ kernel_%s.latRhs = stdLatRhs := by decide\n' % (k.name, k.name, k.name))
         if k.name == 'randomize_graph_partial_und':
-            out.append('theorem kernel_%s_mask : kernel_%s.maskGuard = stdGuard := by decide\n' % (k.name, k.name))
+            out.append('theorem kernel_%s_mask : cellsEq kernel_%s.maskGuard stdMaskGuard = true := by\n  first | decide | fail "kernel_%s_mask: %s (reference.py:%d) does not test the mask in exactly the cells (a,d), (c,b), (d,a), (b,c)"\n' % (k.name, k.name, k.name, k.name, k.line))
     out.append('end Bct.Gen.Kernels')
     return '\n'.join(out) + '\n'
 
